@@ -42,6 +42,9 @@ def plan_items(tier: str, seed: int, *, n_gen_quick: int, n_gen_thorough: int, n
     for r in range(2 if tier == "quick" else 8):
         shards.append({"item": {"kind": "matrix"}, "seed": seed * 7919 + 5000 + r, "n": 0, "matrix": "none", "large": True,
                        "part": [r, 2 if tier == "quick" else 8], "time_cap": 45 if tier == "quick" else 150})
+    # (and on the hand-built classes, which exist even when the plugin of the tree under test cannot emit the matrix module)
+    shards.append({"item": {"kind": "handmade"}, "seed": seed * 7919 + 5100, "n": 0, "matrix": "none", "large": True,
+                   "part": [0, 2], "time_cap": 45 if tier == "quick" else 150})
     return shards
 
 
